@@ -1,5 +1,7 @@
 (* C17 -- Metric tracepoints report each defined metric with the right type, labels, value. *)
 From Deep Require Import Base Config Limiter LimiterProofs Cond Metric MetricProofs.
+From DeepGen Require Import PMetrics.
+From Deep Require Import PureSupport TieMetrics.
 
 (* on a permitted hit every metric definition is reported to every processor, and nothing else is *)
 Theorem C17_dispatch_exact :
@@ -45,3 +47,16 @@ Theorem C17_permitted_hit_reports :
   forall l s h ev ms p ps, snd (step l s h) = true -> snd (metric_hit l s h ev ms (p :: ps)) = dispatch ev ms (p :: ps).
 Proof. exact metric_hit_permitted. Qed.
 Print Assumptions C17_permitted_hit_reports.
+
+(* ---- tie by translation: MetricActionContext.can_trigger / _convert_type as they are in /repo/src NOW (gen/PMetrics.v):
+   with no metric processor active the action cannot trigger, whatever its limits and condition say; the operation a metric
+   is reported through is its type name in lower case *)
+Theorem C17_the_code_needs_a_processor :
+  forall has_processor gate_,
+  gen_metric_can_trigger has_processor gate_ = has_processor && gate_ /\ gen_metric_can_trigger false gate_ = false.
+Proof. intros. split; [apply tie_metric_can_trigger | reflexivity]. Qed.
+Print Assumptions C17_the_code_needs_a_processor.
+
+Theorem C17_the_code_operation_is_the_model : forall ev m p, gen_convert_type (m_type m) = c_op (call_of ev m p).
+Proof. exact tie_convert_type. Qed.
+Print Assumptions C17_the_code_operation_is_the_model.
